@@ -2,7 +2,7 @@ SPECIFICATION Spec
 CONSTANTS
   Ips = {"a1", "a1d"}
   Agents = {"u1", "du1"}
-  MaxReq = 2
+  MaxReq = 3
   Forged = {"selfmade", "transplant"}
   Ops = {"r", "w"}
   Variant = "bound"
